@@ -15,6 +15,7 @@ class FunctionReport:
         self.undecided = None       # reason string when the function could not be brought under contract
         self.vacuity = []           # (probe, reachable?)
         self.seconds = 0.0
+        self.loop_headers = {}
 
     @property
     def name(self):
@@ -31,6 +32,24 @@ def verify_function(rel, qual, contract, hooks=None, registry=None, module_env=N
         rep.sha = sha
     except frontend.MissingAnchor as e:
         rep.undecided = 'anchor missing: %s' % e
+        return rep
+    # loop invariants are keyed by loop ordinal: they only apply while the loop at that ordinal is the loop they were written for
+    import ast as _ast
+    loops_now = [n for n in _ast.walk(node) if isinstance(n, (_ast.For, _ast.While))]
+    hdr = lambda n: ('for %s in %s' % (_ast.unparse(n.target), _ast.unparse(n.iter))) if isinstance(n, _ast.For) else 'while %s' % _ast.unparse(n.test)
+    rep.loop_headers = {str(i + 1): hdr(n) for i, n in enumerate(loops_now)}
+    recorded = _recorded_loops().get('%s::%s' % (rel, qual))
+    if recorded:
+        for no in (contract.get('loops') or {}):
+            was, now = recorded.get(str(no)), rep.loop_headers.get(str(no))
+            if was is not None and now != was:
+                rep.undecided = 'loop anchors drifted: loop #%s is %s, the contract was written for `%s`' % (no, '`%s`' % now if now else 'missing', was)
+                return rep
+    stale = unbound_spec_names(node, contract, module_env)
+    if stale:
+        # the contract speaks about a local the function no longer binds (renamed or removed): it does not fit this code any more.
+        # That is "undecided", never a violation - an invariant over a name that does not exist proves and refutes nothing.
+        rep.undecided = 'contract does not fit the code: it mentions %s, which the function does not bind' % ', '.join('`%s`' % n for n in sorted(stale)[:6])
         return rep
     import copy
     c = copy.deepcopy({k: v for k, v in contract.items() if k not in ('hooks',)})
@@ -87,6 +106,86 @@ def verify_function(rel, qual, contract, hooks=None, registry=None, module_env=N
     rep.n_returns = len(eng.returns)
     rep.seconds = time.time() - t0
     return rep
+
+
+_LOOPS = None
+
+
+def _recorded_loops():
+    global _LOOPS
+    if _LOOPS is None:
+        import json, os
+        from . import env
+        p = os.path.join(env.VERIF, 'pv', 'expected', 'loops.json')
+        _LOOPS = json.load(open(p)) if os.path.exists(p) else {}
+    return _LOOPS
+
+
+_SPEC_GLOBALS = {'np', 'math', 'sparse', 'nx', 'itertools', 'pd', 'True', 'False', 'None', 'result', 'self', 'inf', 'torch', 'callbacks',
+                 'CliqueVector', 'Factor', 'Domain', 'Dataset', 'GraphicalModel', 'str', 'int', 'float', 'list', 'tuple', 'dict', 'set'}
+
+
+def _spec_texts(x):
+    if isinstance(x, str):
+        yield x
+    elif isinstance(x, dict):
+        for k, v in x.items():
+            if k in ('spec', 'when', 'invariant', 'requires', 'ensures', 'terms') or not isinstance(k, str) or isinstance(v, (dict, list, tuple)):
+                yield from _spec_texts(v)
+    elif isinstance(x, (list, tuple)):
+        for v in x:
+            yield from _spec_texts(v)
+
+
+def unbound_spec_names(fn_node, contract, module_env=None):
+    """Names used as values in the contract's specification texts that neither the function (parameters, assigned locals, loop and
+    comprehension targets, nested functions), nor the contract (params, module_env, local_types), nor the spec language binds."""
+    import ast, re
+    bound = set(_SPEC_GLOBALS) | set((module_env or {}).keys()) | set((contract.get('module_env') or {}).keys())
+    bound |= set((contract.get('params') or {}).keys())
+    for n in ast.walk(fn_node):
+        if isinstance(n, ast.Name) and isinstance(n.ctx, (ast.Store, ast.Del)):
+            bound.add(n.id)
+        elif isinstance(n, ast.arg):
+            bound.add(n.arg)
+        elif isinstance(n, (ast.FunctionDef, ast.ClassDef)):
+            bound.add(n.name)
+        elif isinstance(n, (ast.Import, ast.ImportFrom)):
+            for a in n.names:
+                bound.add((a.asname or a.name).split('.')[0])
+        elif isinstance(n, ast.ExceptHandler) and n.name:
+            bound.add(n.name)
+    texts = []
+    for key in ('requires', 'ensures', 'loops', 'sites', 'hints'):
+        texts.extend(_spec_texts(contract.get(key)))
+    stale = set()
+    # locals the contract types or its hooks look up by name, and containers named by store / index sites
+    for nm in list(contract.get('uses_locals', ())) + list((contract.get('local_types') or {}).keys()) + list((contract.get('unpack_types') or {}).keys()):
+        if nm not in bound:
+            stale.add(nm)
+    for site in contract.get('sites', ()) or ():
+        cont = site.get('container') if isinstance(site, dict) else None
+        if cont:
+            root = re.split(r'[.\[]', cont.strip())[0]
+            if root and root not in bound:
+                stale.add(root)
+    for t in texts:
+        try:
+            tree = ast.parse(t, mode='eval')
+        except SyntaxError:
+            continue
+        called = {id(n.func) for n in ast.walk(tree) if isinstance(n, ast.Call)}
+        lam = {a.arg for n in ast.walk(tree) if isinstance(n, ast.Lambda) for a in n.args.args}
+        for n in ast.walk(tree):
+            if isinstance(n, ast.Name) and id(n) not in called and n.id not in lam:
+                base = re.sub(r'__(old|pre|loop\d+)$', '', n.id)
+                if base in bound or base.startswith('_it') or base.startswith('__') or base in ('_sk',):
+                    continue
+                if base != n.id and (base.startswith('n_site_') or base.startswith('ledger_') or base.startswith('max') or
+                                     base in (contract.get('ghost0') or {}) or n.id.endswith('__pre')):
+                    continue                 # entry / loop-entry value of a ghost, not of a program variable
+                stale.add(n.id)
+    return stale
 
 
 def summarize(reports):
